@@ -42,6 +42,11 @@ pub fn case(ctx: &Ctx, idx: u64) -> CaseOut {
     if b.inst.trips.len() > 12 {
         crate::orch::announce_cpu_budget(300.0);
     }
+    if ctx.variant == "tsan" && b.inst.trips.len() > 25 {
+        // neighbourhoods of busy lines need tens of GB under ThreadSanitizer's shadow memory
+        out.count("skipped_big_instance_under_tsan", 1);
+        return out;
+    }
     let (mut s, start_kind) = match p_hist::start_state(&mut rng, &b) {
         Ok(x) => x,
         Err(p) => {
